@@ -8,7 +8,9 @@ import (
 	"io"
 	"reflect"
 	"regexp"
+	"strconv"
 	"strings"
+	"time"
 	"unicode/utf8"
 
 	kmip "github.com/ovh/kmip-go"
@@ -101,6 +103,10 @@ func textRoundTrip(ctx *Ctx, s *schema.Schema, tg planTarget, x reflect.Value, c
 		}
 		if err := c.wellFormed(doc); err != nil {
 			ctx.Res.Violate(report.Violation{Property: "C04", Oracle: "well-formed", Key: c.name + ":not-well-formed", Detail: "independent parser rejects the document: " + err.Error(), Line: line})
+		} else if c.name == "xml" {
+			if m := textNamesWritten(doc); m != "" {
+				ctx.Res.Violate(report.Violation{Property: "C04", Oracle: "names-written", Key: "xml:registered-value-written-as-number", Detail: m, Line: line})
+			}
 		}
 		fresh := reflect.New(tg.ty.Elem())
 		derr, p := guard("Unmarshal", func() error { return c.unmarshal(doc, fresh.Interface()) })
@@ -124,6 +130,83 @@ func textRoundTrip(ctx *Ctx, s *schema.Schema, tg planTarget, x reflect.Value, c
 		ctx.Add(line, "ok", true, "")
 		ctx.Res.Count("text.rt." + c.name)
 	}
+}
+
+var textRegistry *lexEnv
+
+// textNamesWritten: in a document of a TYPED message every enumeration value and every mask bit the registry has a name
+// for is written by that name (the hexadecimal fallback is for unregistered values only): another implementation reads
+// names through its own tables, and a writer handed the wrong enumeration (the field's tag instead of the type's)
+// still round-trips through this library. The enumeration / mask of an element is its own tag's, the one of the Go type
+// of the field where they differ (reflected schema), or for an AttributeValue the one named by the attribute name.
+func textNamesWritten(doc []byte) string {
+	nodes, err := parseXMLNodes(doc)
+	if err != nil || len(nodes) != 1 {
+		return ""
+	}
+	if textRegistry == nil {
+		textRegistry = lexNewEnv()
+	}
+	e := textRegistry
+	msg := ""
+	vecWalk(nodes[0], func(n, parent *xnode, loc vecLoc) {
+		if msg != "" {
+			return
+		}
+		ty, val := n.Attrs["type"], n.Attrs["value"]
+		if ty != "Enumeration" && ty != "Integer" {
+			return
+		}
+		tag := 0
+		if n.Name == "TTLV" {
+			return // unnamed (extension) tag: no table
+		}
+		tag, _ = vecTagOfName(n.Name)
+		et := tag
+		if n.Name == "AttributeValue" {
+			et = vecAttrEnumTag(loc.attrName)
+		} else if a, ok := enumAlias()[tag]; ok {
+			et = a
+		}
+		if et == 0 {
+			return
+		}
+		switch ty {
+		case "Enumeration":
+			if !strings.HasPrefix(val, "0x") {
+				return
+			}
+			v, err := strconv.ParseUint(val[2:], 16, 32)
+			if err != nil {
+				return
+			}
+			for i, rv := range e.enumVals[et] {
+				if uint64(rv) == v {
+					msg = fmt.Sprintf("<%s> Enumeration %s is written as a number although %s names it %q", n.Name, val, ttlv.TagString(et), e.enumNames[et][i])
+				}
+			}
+		case "Integer":
+			names := e.maskNames[et]
+			if len(names) == 0 {
+				return
+			}
+			for _, part := range strings.Fields(val) {
+				if !strings.HasPrefix(part, "0x") {
+					continue
+				}
+				v, err := strconv.ParseUint(part[2:], 16, 32)
+				if err != nil {
+					continue
+				}
+				for bit := 0; bit < len(names) && bit < 32; bit++ {
+					if v&(1<<uint(bit)) != 0 && names[bit] != "" {
+						msg = fmt.Sprintf("<%s> bit mask %q carries bit %d as a number although %s names it %q", n.Name, val, bit, ttlv.TagString(et), names[bit])
+					}
+				}
+			}
+		}
+	})
+	return msg
 }
 
 var errNum = regexp.MustCompile(`[0-9]+|"[^"]*"|0x[0-9A-Fa-f]+`)
@@ -350,6 +433,11 @@ func init() {
 }
 
 func runText(ctx *Ctx) {
+	// pin what the engine assumes (dates are compared through binary TTLV, i.e. as instants, but the documents are not
+	// to depend on the machine's zone); the zone oracle lives in the lex engine
+	savedLocal := time.Local
+	time.Local = time.UTC
+	defer func() { time.Local = savedLocal }()
 	s := getSchema()
 	r := ctx.R
 	reqT := planTarget{s.Roots["RequestMessage"], reflect.TypeFor[*kmip.RequestMessage](), 0}
@@ -386,6 +474,19 @@ func runText(ctx *Ctx) {
 			mode, codecs = 1, textCodecs[1:]
 		}
 		p := &popCfg{r: r, s: s, fill: i % 3, textMode: mode, respectGating: true}
+		if i%3 == 2 {
+			// text over the whole alphabet of the format, now and then long (buffer growth / aliasing in the writers)
+			long := i%60 == 59
+			p.strGen = func() string {
+				n := r.Intn(14)
+				if long && r.Chance(1, 6) {
+					n = rng.Pick(r, []int{500, 4096, 5000, 65536, 70000})
+					ctx.Res.Count("text.long-string")
+				}
+				ctx.Res.Count("text.wide-alphabet")
+				return string(lexGenText(r, mode, n))
+			}
+		}
 		x := reflect.New(tg.ty.Elem())
 		p.populate(x.Elem())
 		textRoundTrip(ctx, s, tg, x, codecs)
